@@ -5,6 +5,12 @@ V = os.path.dirname(os.path.dirname(os.path.abspath(__file__)))
 
 CHECKS = {
 
+ 'C06': dict(
+   technique='differential runtime monitor on the real artefact: ChartToPromela output executed by the spin simulator (spin -T, 3 seeds, never the pan verifier); TRACE_EXECUTION output compared with the interpreter history of the same document',
+   text='Exploration: seeded random promela-datamodel documents whose events are produced by the document itself are transpiled, simulated with spin and compared step by step (event, exits, entries, transitions, log values, final configuration) with the interpreter; seeds sample the executions of the (deterministic) model.',
+   note='Trusted: spin simulator, index mapping in vf/tables.py. "Every execution" is sampled by simulation seeds, not enumerated. Nested machines excluded.',
+   ref='DESIGN.md 3/C06'),
+
  'C04': dict(
    technique='differential runtime monitor on the real artefact: ChartToC output compiled (gcc -fsanitize=address,undefined,bounds and plain -O2, emitted sizing macros) and driven by a C scaffold with the same history as the interpreter; projected histories compared; sanitizer reports in the emitted step function',
    text='Exploration: seeded random documents (+ documents padded to the byte boundaries of the sizing macros) are transpiled, compiled twice and executed; dequeued events, log lines with values, configuration after each micro step and final data must equal the interpreter trace; ASan/UBSan(bounds) watch the emitted code.',
